@@ -82,6 +82,15 @@ def gap(run, quick):
                                 a = w.rotate(w.rotate(modes, quaternionic.array(R), horner=horner), quaternionic.array(R2), horner=horner).ndarray
                                 b = w.rotate(modes, quaternionic.array(helpers.qmul(R, R2)), horner=horner).ndarray
                                 c = w.rotate(w.rotate(modes, quaternionic.array(R), horner=horner), quaternionic.array(helpers.qconj(R)), horner=horner).ndarray
+                                # the same inverse pair with unrelated calls in between and an explicit workspace for the way back
+                                r1 = w.rotate(modes, quaternionic.array(R), horner=horner)
+                                w.D(quaternionic.array(R2))
+                                w.sYlm(0, quaternionic.array(Q))
+                                c2 = w.rotate(r1, quaternionic.array(helpers.qconj(R)), horner=horner).ndarray
+                                c3 = w.rotate(r1, quaternionic.array(helpers.qconj(R)), workspace=w.new_workspace(), horner=horner).ndarray
+                                if not (float(np.max(np.abs(c2 - arr0))) <= 2 * tol) or not (float(np.max(np.abs(c3 - arr0))) <= 2 * tol):
+                                    run.violation("rotate-inverse", f"Wigner.rotate[horner={horner}]", {"s": s, "ell_max_modes": L, "R": list(R), "between": ["D(R2)", "sYlm(0,Q)"], "R2": list(R2), "Q": list(Q)},
+                                                  "rotate(R), other calls, rotate(R^-1) = identity", f"err {max(float(np.max(np.abs(c2 - arr0))), float(np.max(np.abs(c3 - arr0))))}")
                             except Exception:
                                 continue
                             run.gap_case("rotate-composition-inverse", (s, L, lead, kind, horner), f"{la}*{lb}")
